@@ -231,7 +231,9 @@ Worlds0 ==
         lfile    == {FileRec(p, kd, pm, fo, s) :
                        p \in {"set"}, kd \in {"absent", "file"}, pm \in {"600", "644"}, fo \in {"empty", "wrongsec", "remove"},
                        s \in {t \in [Secs -> LV] : t["components"] = "none" /\ t["bogus"] \in {"none", "one"}}}
-        canon(x) == IF x.kind = "absent" THEN x = Absent ELSE (x.form \in {"map", "remove"} \/ x.s = NoSecs)
+        canon(x) == IF x.kind = "absent" THEN x = Absent
+                    ELSE /\ (x.form \in {"map", "remove"} \/ x.s = NoSecs)
+                         /\ x.perm # "600" => \A k \in Secs : x.s[k] \in {"none", "one"} /\ (k = "bogus" => x.s[k] = "none")
     IN {[validate |-> v, obf |-> o, red |-> r, con |-> c, leg |-> l] :
           v \in BOOLEAN, o \in {"off", "all"},
           r \in {x \in yfile("red") : canon(x)}, c \in {x \in yfile("con") : canon(x)}, l \in {x \in lfile : canon(x)}}
@@ -341,7 +343,7 @@ I_Switches == Ran => eff.sw = SwOf(Ref.conf, w.obf)
 I_ReportTotal == Ran => (rep.k = "ok" /\ \A k \in ItemSecs : rep.n[k] = Cardinality(Ref.conf[k]))
 
 TypeOK ==
-    /\ ph \in {"file", "decide", "merge", "blacklist", "cleaner", "report", "done"}
+    /\ ph \in {"pick", "file", "decide", "merge", "blacklist", "cleaner", "report", "done"}
     /\ cur \in 1..3 /\ step \in {"locate", "perm", "parse", "validate"}
     /\ res.k \in {"-", "ok", "error"}
     /\ \A k \in ItemSecs : res.conf[k] \subseteq Ids
